@@ -94,8 +94,8 @@ var cfgs = map[string]*propCfg{
 	"C10": {Profile: "client", QuickCases: 2400, ThoroughCases: 150000, QuickSecs: 100, ThoroughSecs: 1500, Level: "exploration",
 		Rule: "case = one seeded fault-free session on a real client connection (version, compression, limits, link all drawn): 1-8 concurrent senders x 1-5 tagged requests; the peer holds requests back and answers in a drawn permutation with drawn gaps, multi-page (DSE continuous paging) responses of 1..MaxPending pages, interleaved events and responses for stream ids that are not in flight; consumers read at a drawn pace. Oracle over the recorded history: every response sent is received exactly once, by the request with its tag, pages in order, request completed on the last page; events exactly once on the event channel and per handler. distinct = distinct event-log fingerprints; non-trivial = at least two requests accepted and at least one switch between tasks inside repository code"},
 	"C09": {Profile: "client", QuickCases: 6400, ThoroughCases: 400000, QuickSecs: 100, ThoroughSecs: 1500, Level: "exploration",
-		Rule: "case = one seeded concurrent history on the real in-flight request handler (N, managed or explicit ids, 1-4 senders, a deliverer issuing final/non-final/unknown-id responses, optional concurrent close; interleaved at statement granularity), checked (1) for linearizability against the sequential stream-id model with porcupine, (2) for operations that block, (3) for id recycling at the final quiescent checkpoint. distinct = distinct event-log fingerprints; non-trivial = at least two operations of different clients overlapped in the history",
-		Assumptions: []string{"handler reached through a generated export shim (client/zz_verif_shim.go); mixing managed and explicit ids on one handler is not generated (the API documents it as not recommended and the statement does not cover it)"}},
+		Rule: "case = one seeded concurrent history on the real in-flight request handler (N, managed ids, explicit ids, or both mixed with the explicit ones above N; 1-4 senders, a deliverer issuing final/non-final/unknown-id responses, optional concurrent close; interleaved at statement granularity), checked (1) for linearizability against the sequential stream-id model with porcupine, (2) for operations that block, (3) for id recycling at the final quiescent checkpoint; every fourth case additionally runs a live connection against a raw server that checks the ids on the wire (range, uniqueness among unanswered requests, at most N unanswered), with held-back answers, optionally a short read timeout so that answers arrive after their request failed, optionally mixed explicit ids, rarely a burst of N>1000 sends at a stalled peer, and a final checkpoint where N new sends must be accepted and one more refused. distinct = distinct event-log fingerprints; non-trivial = at least two operations of different clients overlapped in the history",
+		Assumptions: []string{"handler reached through a generated export shim (client/zz_verif_shim.go); managed and explicit ids are mixed on one handler only with explicit ids above N: an explicit id inside 1..N on a handler that also assigns ids itself collides by construction, which the API documents as not recommended"}},
 	"C16": {Profile: "client", QuickCases: 640, ThoroughCases: 24000, QuickSecs: 100, ThoroughSecs: 1500, Level: "fault_enumeration",
 		Rule: "case = one seeded session (version, auth, limits, timeouts, link, senders, response plans, schedule strategy all drawn from the tape) run fault-free, then re-run with the same seed and one or two crash points (fault kind x scheduler step) drawn uniformly over the session's steps; thorough additionally enumerates every step boundary x fault kind for fixed sessions. distinct = distinct event-log fingerprints (hash of every scheduling decision and harness event); non-trivial = at least one task switch between two tasks that were both inside repository code and at least one request was attempted"},
 }
